@@ -58,8 +58,14 @@ func (r *FunctionData[T]) UpdateData(remoteWrite, persist bool, newData *T, filt
 	defer r.mux.Unlock()
 
 	if filterPartial == nil && filterDelete == nil && persist {
-		// just set the data
-		r.data = newData
+		// just set the data, but keep a copy so the stored struct
+		// is not the one the caller (and event payloads) hold
+		if newData != nil {
+			copiedData := *newData
+			r.data = &copiedData
+		} else {
+			r.data = nil
+		}
 		return r.data, nil
 	}
 
